@@ -173,6 +173,17 @@ template <class T> bool allZero(const T& v) { const unsigned char* p = reinterpr
 // a configuration TU may force the block-size argument of every generated case (-1 = automatic); 0 = no forcing
 inline long& forcedBlockSize() { static long v = 0; return v; }
 
+// number of threads of the OpenMP runtime the engine is linked with (no-op in engines built without -fopenmp)
+#ifdef _OPENMP
+} // namespace tbx
+#include <omp.h>
+namespace tbx {
+inline void setOmpThreads(int t) { omp_set_num_threads(t); }
+#else
+inline void setOmpThreads(int) {}
+#endif
+// value given to the TBFMM_BLOCK_SIZE environment variable: mostly small (many groups), sometimes larger than any level
+inline long envBlockSize(uint64_t h) { const long big[] = {64, 1000, 100000}; return (h >> 8) % 5 == 0 ? big[(h >> 16) % 3] : 1 + long(h % 7); }
 inline std::vector<long> blockSizesFor(long nbLeaves, bool all) {
     std::vector<long> v;
     if (all) { for (long b = 1; b <= nbLeaves + 1; ++b) v.push_back(b); return v; }
